@@ -228,7 +228,13 @@ fn stack_item_to_json(r: &SpanResolver<'_>, item: &EvalStackTraceItem) -> J {
     }
 }
 
+/// Long traces are shortened to their first and last 1000 items (`stack_len` keeps the real length).
 pub fn stack_to_json(r: &SpanResolver<'_>, stack: &[EvalStackTraceItem]) -> J {
+    if stack.len() > 2000 {
+        let head = stack[..1000].iter();
+        let tail = stack[stack.len() - 1000..].iter();
+        return J::Array(head.chain(tail).map(|i| stack_item_to_json(r, i)).collect());
+    }
     J::Array(stack.iter().map(|i| stack_item_to_json(r, i)).collect())
 }
 
@@ -359,6 +365,7 @@ pub fn eval_error_to_json(r: &SpanResolver<'_>, e: &EvalError, phase: &str) -> J
         "spans": spans,
         "detail": detail,
         "stack": stack_to_json(r, &e.stack_trace),
+        "stack_len": e.stack_trace.len(),
     })
 }
 
